@@ -8,7 +8,7 @@ from Geometry3D import intersection
 
 from .. import core, lib, exact as X, alphabet as A
 from ..core import Viol, Family
-from ..icheck import reused
+from ..icheck import reused, eval_moved_inter
 
 LEVEL = 'exploration'
 TECHNIQUE = 'bounded-exhaustive enumeration of all lattice scene pairs x poses on the real code vs exact rational closed-form model'
@@ -128,6 +128,11 @@ class Mixed(Family):
         return not any(cell.endswith(x) for x in ('skew', 'parallel-disjoint', 'parallel-off-plane', 'parallel-distinct'))
 
 
+class MovedMixed(Mixed):
+    def eval(self, scene):
+        return eval_moved_inter('C01', self.name, scene[0], scene[1])
+
+
 def families(tier):
     fams = []
     if tier == 'quick':
@@ -144,7 +149,10 @@ def families(tier):
         fams.append(Mixed('LP', pose, planes, linelikes, chunk=4))
         fams.append(Mixed('PP', pose, planes, planes, both_orders=False, chunk=8))
         fams.append(Mixed('PX', pose, points, linelikes + planes + points, chunk=4))
-    return A.with_int_mode(fams, tier)
+    fams = A.with_int_mode(fams, tier)
+    st = 7 if tier == 'quick' else 2
+    fams.append(MovedMixed('moved', A.P1, planes[::st] + linelikes[::st * 5], linelikes[::st] + planes[::st] + points[::3], both_orders=False, chunk=2))
+    return fams
 
 
 def run(tier, seed):
@@ -160,4 +168,6 @@ def run(tier, seed):
 
 def replay(family, scene):
     a, b = core.dec(scene)
+    if family.startswith('moved'):
+        return eval_moved_inter('C01', family, a, b)[1]
     return eval_pair(family, a, b)[1]
